@@ -107,13 +107,19 @@ def py_select(w: int, chain):
     return bits, ("must-accept" if must_accept else "reject-or-correct")
 
 
-def make_design(kind: str, w: int, chain, nsel: int):
+def make_design(kind: str, w: int, chain, nsel: int, arrays: bool = True):
     e, sigs, insts, buns, bdefs = parent_expr(kind, w)
     expr = e
     for index in chain:
         expr = ["slice", expr, index]
     insts = list(insts)
     insts.append({"name": "d", "kind": "single", "of": ["leaf", refsem.wleaf(max(nsel, 1))], "tag": 1, "conns": {"p": expr}})
+    # the same expression split across the elements of instance arrays (one bit, two bits per element)
+    if arrays and nsel >= 2:
+        insts.append({"name": "da", "kind": "array", "n": nsel, "of": ["leaf", refsem.wleaf(1)], "tag": 2, "conns": {"p": copy.deepcopy(expr)}})
+        if nsel % 2 == 0 and nsel >= 4:
+            insts.append({"name": "db", "kind": "array", "n": nsel // 2, "of": ["leaf", refsem.wleaf(2)], "tag": 3,
+                          "conns": {"p": copy.deepcopy(expr)}})
     # observers so that every bit of the root signals is a leaf terminal
     for s in sigs:
         insts.append({"name": f"o_{s[0]}", "kind": "single", "of": ["leaf", refsem.wleaf(s[1])], "tag": 20,
@@ -137,6 +143,7 @@ def judge_case(rec, kind: str, w: int, chain, sample=False):
     nsel = len(sel) if sel else 1
     design = make_design(kind, w, chain, nsel)
     stage = "create"
+    top = conn = None
     try:
         built = build.Built()
         built.uid = f"_{next(build._counter)}"
@@ -155,6 +162,17 @@ def judge_case(rec, kind: str, w: int, chain, sample=False):
     except Exception as e:
         # rejected
         rec.hist("rejected_at", stage)
+        if cls == "must-reject" and stage != "create":
+            # a rejection must not depend on how often the expression was looked at before
+            rec.count("driver.reprobe")
+            try:
+                again = (conn.width, top if top is not None else mb.finish())
+                pkg2 = h.to_proto(again[1])
+                rec.violation("rejection-not-stable",
+                              f"{desc} was rejected at {stage} ({oracle.exc_sig(e)}), but asking again reported width {again[0]} "
+                              f"and elaboration of the same design then returned a package", case=case, parent=kind)
+            except Exception:
+                pass
         if cls == "must-accept":
             rec.count("outcome.rejected-but-must-accept")
             rec.violation(f"valid-index-rejected:{kind}",
